@@ -6,46 +6,46 @@ ROOT = os.path.dirname(os.path.dirname(os.path.abspath(__file__)))
 # id -> (category, technique, level text, level note, design ref)
 T = {
  "C01": ("exploration", "runtime oracle: independent decode + crypto check of every accepted mutant/splice/re-encoding",
-         "Every envelope the library accepts out of ~10^5-10^6 generated mutants, splices and re-encodings of valid JWS/COSE envelopes is re-decoded by an independent codec, its signature checked under the leaf key over the independently reconstructed signed bytes, and every returned field compared. Held on the executions produced, not a proof.",
+         "Every envelope the library accepts out of ~10^5-10^6 generated mutants, splices and re-encodings of valid JWS/COSE envelopes is re-decoded by an independent codec, its signature checked under the leaf key over the independently reconstructed signed bytes, and every returned field compared (single and double bit flips, structural edits, splices, signature fields of suggestive shapes, chain edits, re-encodings). Held on the executions produced, not a proof.",
          "Trusts Go crypto/encoding std libs and fxamacker/cbor for the oracle's decoding; single-bit flips are exhaustive only over the corpus members listed in the evidence.", "DESIGN 4/C01"),
  "C02": ("exploration", "exhaustive enumeration of (key, declared algorithm, format, scheme) cells executed against the library",
-         "The finite table of leaf key kinds x declared algorithms x formats x schemes is enumerated completely, each cell with a genuinely valid signature for the declared algorithm where the key admits one; accept/reject and reported algorithm/hash are compared with the six-row table.", "Trusts std crypto for producing the valid off-diagonal signatures.", "DESIGN 4/C02"),
+         "The finite table of leaf key kinds x declared algorithms x formats x schemes is enumerated completely, each cell with a genuinely valid signature for the declared algorithm where the key admits one; accept/reject and reported algorithm/hash are compared with the six-row table; look-alike and duplicate alg headers, remote signers whose declared key spec lies or changes between calls, and the same cells on an envelope object that has signed before, are included.", "Trusts std crypto for producing the valid off-diagonal signatures.", "DESIGN 4/C02"),
  "C03": ("exploration", "differential run against a reference chain predicate over a violation/variation catalogue at every position",
          "ValidateCodeSigningCertChain (and the envelope routes) is executed on chains of length 1-5 built from a catalogue of single violations, benign variations and their pairs at every position, and its boolean verdict compared with a reference predicate written from the statement.", "Reference predicate (<150 lines) and crypto/x509 parsing are trusted; shapes listed in DESIGN 7 are outside the generated domain.", "DESIGN 4/C03"),
  "C04": ("exploration", "runtime monitor over the responder's deliver log (evidence-based oracle) under scripted forged/stale/malformed replies",
-         "The real OCSP client is run against an in-process forging responder for every single and pair (and all/sampled triples) of ~46 behaviours x GET/POST x EC/RSA issuer x signing time x both entry points; OK is admitted only if the responder double itself says it delivered an authentic current Good reply to that certificate, and a first usable authentic Revoked must yield Revoked.", "Authenticity labels come from the double's construction (Appendix A.2). nextUpdate instants are 2001/2096, so the wall-clock boundary itself is not explored.", "DESIGN 4/C04"),
+         "The real OCSP client is run against an in-process forging responder for every single and pair (and all/sampled triples) of ~56 behaviours x GET/POST x EC/RSA issuer x signing time x both entry points (also with a clean CRL behind the responders, and as second calls on a used validator); OK is admitted only if the responder double itself says it delivered an authentic current Good reply to that certificate, and a first usable authentic Revoked must yield Revoked. A Good answer is also watched crossing its next-update instant under continuous calls.", "Authenticity labels come from the double's construction (Appendix A.2). Scripted nextUpdate instants are 2001/2096; the boundary is observed live with the sound rule 'began after the instant and still OK' (a loaded machine can make that observation empty, never wrong).", "DESIGN 4/C04"),
  "C05": ("exploration", "differential run against a reference scan of distribution points, fed by what was delivered",
-         "All assignments of ~28 CRL behaviours (authentic, wrong signer, stale, critical extensions, delta number/indicator boundaries, fetch failures) to 1-3 distribution points, through a caller-supplied fetcher and the real HTTP fetcher, are executed and the certificate result compared with the reference scan.", "Reference scan and behaviour classes (Appendix A.2) are trusted.", "DESIGN 4/C05"),
+         "All assignments of ~28 CRL behaviours (authentic, wrong signer, stale, critical extensions, delta number/indicator boundaries, fetch failures) to 1-3 distribution points, through a caller-supplied fetcher and the real HTTP fetcher, are executed and the certificate result compared with the reference scan; distribution points differing only in their query string (cache on/off) and CRLs crossing their next-update instant under continuous calls are included.", "Reference scan and behaviour classes (Appendix A.2) are trusted.", "DESIGN 4/C05"),
  "C06": ("fault_enumeration", "fault injection at transport/fetcher/cache boundaries with an evidence-based oracle and a metamorphic independence relation",
-         "Faults (transport errors, timeouts, statuses, empty/truncated/oversized/garbage bodies, OCSP error statuses, unsupported and unparsable URLs, cache faults, cancellation before/during/after) are enumerated per certificate and sampled across certificates; OK/NonRevokable is admitted only with delivered authentic evidence, and re-drawing other certificates' faults must not change a certificate's result. A slice runs under the race detector.", "Evidence labels come from the doubles; cancellation timing is decided by request index, never by wall clock.", "DESIGN 4/C06"),
+         "Faults (transport errors, timeouts, statuses, empty/truncated/oversized/garbage bodies, OCSP error statuses, unsupported and unparsable URLs, cache faults, cancellation before/during/after) are enumerated per certificate and sampled across certificates; OK/NonRevokable is admitted only with delivered authentic evidence, and re-drawing other certificates' faults must not change a certificate's result; cached configurations are also judged on repeated calls over the same validator, fetcher and cache (evidence cumulative).", "Evidence labels come from the doubles; cancellation timing is decided by request index, never by wall clock.", "DESIGN 4/C06"),
  "C07": ("exploration", "post-condition monitor on Verify/Content outputs of independently encoded, validly signed deviant envelopes",
          "An independent encoder signs envelopes that deviate from the specification in every single, pair and sampled larger set of ~45 catalogue deviations; whenever the library accepts, the listed post-conditions are checked on its output and on an independent header decode; conforming envelopes must be accepted and Verify/Content must agree.", "Independent codec and std crypto are trusted.", "DESIGN 4/C07"),
  "C08": ("exploration", "round-trip monitor: Sign -> Parse -> Verify compared field-wise with the request; remote-signer bytes compared with independently reconstructed to-be-signed bytes",
-         "Seed-generated valid sign requests (payload kinds, times with sub-second parts/zones, attributes, both schemes, six key specs, chain lengths, local/remote signers) are signed, re-parsed and verified; every field is compared after the statement's normalisation.", "JSON value equality uses decimal-literal comparison; inputs listed in DESIGN 7 are outside the domain.", "DESIGN 4/C08"),
+         "Seed-generated valid sign requests (payload kinds, times with sub-second parts/zones, attributes, both schemes, six key specs, chain lengths, local/remote signers) are signed, re-parsed and verified; every field is compared after the statement's normalisation; a third of the requests are signed on an object that has signed before, and the signing object is re-read after another object signed.", "JSON value equality uses decimal-literal comparison; inputs listed in DESIGN 7 are outside the domain.", "DESIGN 4/C08"),
  "C09": ("exploration", "crash/hang monitor over child processes fed structure-aware and byte-level mutants; native coverage-guided fuzzing in the thorough tier",
-         "Mutated envelopes, key/certificate files, certificates with hostile URL/serial/extension shapes and mutated OCSP/CRL bodies are pushed through every public entry point inside worker processes; the oracle is process survival, per-call recover() and a goroutine-state hang classifier.", "A clean run means no crash on the inputs produced; thorough adds go test -fuzz (six targets, iteration-bounded).", "DESIGN 4/C09"),
+         "Mutated envelopes, key/certificate files (multi-block PEM), certificates with hostile URL/serial/extension shapes, chains from the certificate-profile catalogue, mutated OCSP/CRL bodies and lying Content-Length announcements are pushed through every public entry point inside worker processes; the oracle is process survival, per-call recover() and a goroutine-state hang classifier.", "A clean run means no crash on the inputs produced; thorough adds go test -fuzz (six targets, iteration-bounded).", "DESIGN 4/C09"),
  "C10": ("exploration", "differential run against a reference interpreter of CRL entry semantics; small scope enumerated completely",
-         "All base/delta entry lists up to 2 entries over the full alphabet (3-4 over a reduced one) with signing time zero and non-zero are built as real DER CRLs and run through ValidateContext; the result must be in the set the reference interpreter (Appendix A.3) allows.", "Reference interpreter is trusted; ties between hold and remove at equal times admit both outcomes.", "DESIGN 4/C10"),
+         "All base/delta entry lists up to 2 entries over the full alphabet (3-4 over a reduced one) with signing time zero and non-zero are built as real DER CRLs and run through ValidateContext; the result must be in the set the reference interpreter (Appendix A.3) allows - for the certificate and for a sibling certificate checked against the same bundle object.", "Reference interpreter is trusted; ties between hold and remove at equal times admit both outcomes.", "DESIGN 4/C10"),
  "C11": ("exploration", "trace checker over the transport's request log plus reference decision table",
-         "For every (OCSP outcome vector x CRL outcome vector) up to 2+2 sources (3+3 sampled), chains of length 2-4, both purposes and both entry points, the result fields are compared with the decision table and the request log is checked against the OCSP* CRL* trace specification with its stop conditions.", "Outcome classes come from the doubles.", "DESIGN 4/C11"),
+         "For every (OCSP outcome vector x CRL outcome vector) up to 2+2 sources (3+3 sampled), chains of length 2-4, both purposes and both entry points, the result fields are compared with the decision table and the request log is checked against the OCSP* CRL* trace specification with its stop conditions; two-call histories on one validator (servers and signing-time setting changed in between, a quarter behind a caching HTTPFetcher) are judged the same way.", "Outcome classes come from the doubles.", "DESIGN 4/C11"),
  "C12": ("exploration", "result-shape invariant monitor over results produced under forced completion orders",
-         "A pure invariant checker (length, position/URL ownership, root NonRevokable, verdict vs server-result shape, InvalidChainError on invalid/empty chains) runs on every result of a dedicated sweep (lengths 1-5, all outcome classes, both purposes, invalid chains, all completion orders via the barrier transport) and of re-driven C04-C06/C10/C11/C17 workloads; part runs under the race detector.", "Shape rules are those documented in result.CertRevocationResult.", "DESIGN 4/C12"),
+         "A pure invariant checker (length, position/URL ownership, root NonRevokable, verdict vs server-result shape, InvalidChainError on invalid/empty chains) runs on every result of a dedicated sweep (lengths 1-5, all outcome classes, both purposes, invalid chains, all completion orders via the barrier transport) cancelled calls, roots that advertise responders, broken arrangements of a chain validated a moment earlier, signing times outside every validity period; every returned result is scribbled over after judging.", "Shape rules are those documented in result.CertRevocationResult.", "DESIGN 4/C12"),
  "C13": ("exploration", "set-equality monitor between returned extended attributes and an independent protected-header decode",
          "Independently signed envelopes with 0-6 extra protected headers (text and COSE integer labels, all value kinds, every critical subset, phantom and specification crit entries) are verified; the attribute multiset must equal the independent decode minus specification labels with criticality = crit membership.", "Independent codec trusted; F10 (JWS numbers beyond 2^53) is a recorded known finding.", "DESIGN 4/C13"),
  "C14": ("exploration", "differential run against a reference timestamping-chain predicate",
          "As C03 for ValidateTimestampingCertChain, with the EKU set ranging over all subsets x criticalities, plus the revocation validator configured for the timestamping purpose as a second observation point.", "Reference predicate trusted.", "DESIGN 4/C14"),
  "C15": ("fault_enumeration", "fault enumeration at the TSA and revocation-validator boundaries with a reference conjunction and imprint recomputation",
-         "An in-process RFC 3161 authority behind tspclient's HTTP timestamper serves every catalogue behaviour x every revocation-result vector; Sign must succeed exactly when the reference conjunction holds, the embedded token must be the served one with imprint = H(signature), failures must be TimestampError with no bytes, and no request may reach the TSA under signingAuthority or without a timestamper.", "TSA double is trusted to label what it served.", "DESIGN 4/C15"),
+         "An in-process RFC 3161 authority behind tspclient's HTTP timestamper serves every catalogue behaviour x every revocation-result vector (nil / empty caller root pools with the host trust store holding the authority's root, requests passed through WithContext, two authorities with different trust); Sign must succeed exactly when the reference conjunction holds, the embedded token must be the served one with imprint = H(signature), failures must be TimestampError with no bytes, and no request may reach the TSA under signingAuthority or without a timestamper.", "TSA double is trusted to label what it served.", "DESIGN 4/C15"),
  "C16": ("exploration", "negative-request monitor: every invalidating change and pair must yield error and no bytes; controls must succeed",
-         "Valid base requests x ~50 invalidating changes (singles and pairs) in both formats, local/remote signers, six key specs and both schemes are executed; the oracle is err != nil, no bytes, no panic, and the converse for valid controls.", "The catalogue of invalidating changes is read off the statement.", "DESIGN 4/C16"),
+         "Valid base requests x ~95 invalidating changes (singles - also on a used envelope object - and pairs) in both formats, local/remote signers, six key specs and both schemes are executed; the oracle is err != nil, no bytes, no panic, and the converse for valid controls.", "The catalogue of invalidating changes is read off the statement.", "DESIGN 4/C16"),
  "C17": ("exploration", "Go race detector + barrier-forced schedules + goroutine-leak and panic-routing monitors",
-         "In a -race child: every permutation of releasing the concurrent per-certificate exchanges (k<=4), 1-32 concurrent callers on shared validator/client/fetcher/cache, panic injection at each exchange / pair / all, cancellation at each exchange; results must equal the sequential reference, no race report may name the library, no library goroutine or open exchange may remain, injected panics must resurface on the caller.", "Completion order is forced from outside (no hook); evidence lists the orders actually observed.", "DESIGN 4/C17"),
+         "In a -race child: every permutation of releasing the concurrent per-certificate exchanges (k<=4), 1-32 concurrent callers on shared validator/client/fetcher/cache, panic injection at each exchange / pair / all, cancellation at each exchange; results must equal the sequential reference, no race report may name the library, no library goroutine, open exchange or unclosed response body may remain, no shared CRL bundle object may be written to, injected panics must resurface on the caller.", "Completion order is forced from outside (no hook); evidence lists the orders actually observed.", "DESIGN 4/C17"),
  "C18": ("fault_enumeration", "history enumeration against an executable reference model of server, cache and armed faults",
-         "All histories to depth 3 (quick) / 4 (thorough) over {fetch, publish, cache entry states, cache/server faults} x DiscardCacheError x freshest-CRL shapes are run against the real HTTPFetcher; each Fetch result, the cache writes and the request sequence must match the model (Appendix A.4).", "Model trusted; expiry is 2001 vs 2096.", "DESIGN 4/C18"),
+         "All histories to depth 3 (quick) / 4 (thorough, 5 for four shapes) over {fetch, publish, cache entry states, cache/server faults} x DiscardCacheError x 16 freshest-CRL shapes are run against the real HTTPFetcher; each Fetch result, the cache writes and the request sequence must match the model (Appendix A.4). Cached bundles are also watched crossing their next-update instant under continuous fetching.", "Model trusted; scripted expiry is 2001 vs 2096, the boundary is observed live (sound rule: began after the instant and still served from the cache).", "DESIGN 4/C18"),
  "C19": ("exploration", "exhaustive enumeration over a look-alike certificate pool against a reference",
          "All ordered chains (1-4) x all ordered trust lists (0-4) over a pool with look-alike certificates are passed to VerifyAuthenticity and compared with the reference; AuthenticSigningTime is checked on the scheme x time grid.", "Reference trusted; pointer identity beyond DER equality + membership is not asserted.", "DESIGN 4/C19"),
  "C20": ("exploration", "history enumeration against a nondeterministic reference state machine",
-         "All operation histories up to length 4 (quick) / 5 (thorough) over {sign A, sign B, early-failing sign, late-failing sign, verify, content} from new / parsed-valid / parsed-tampered objects in both formats with local and remote signers are executed; the monitor tracks the set of reference states consistent with all outputs and reports when it becomes empty.", "Reference machine (Appendix A.5) trusted.", "DESIGN 4/C20"),
+         "All operation histories up to length 4 (quick) / 6 (thorough) over {sign A, sign B, early-failing sign, late-failing sign (five variants), verify, content, another object signs elsewhere} from new / parsed-valid / parsed-tampered objects in both formats with local and remote signers are executed; the monitor tracks the set of reference states consistent with all outputs and reports when it becomes empty.", "Reference machine (Appendix A.5) trusted.", "DESIGN 4/C20"),
 }
 BUILT = set(open(os.path.join(ROOT, "tools", "built.txt")).read().split())
 checks, na = [], []
